@@ -83,7 +83,9 @@ def bounded_transparency(reg, tier, seed):
         for t in tmpls:
             for direction in (Direction.OUT, Direction.IN):
                 region_idx = rng.randrange(2)
-                banned = not xml.validate_udp_msg(t.name)
+                # (read from the message.xml data by the driver itself: a message listed there with a flavour other than "template" may
+                # not come over UDP)
+                banned = t.name in xml.messages and xml.messages[t.name].get("flavor") != "template"
                 # garbage before
                 for _ in range(rng.choice([0, 1, 2])):
                     kind = rng.choice(GARBAGE)
